@@ -3,6 +3,9 @@ CONSTANTS
   ReqV4 = {"f1"}
   ReqV6 = {"s1"}
   ReqDual = {"d1", "d2"}
+  ReqFail = {}
+  ReqFail6 = {}
+  ErrorPath = "plain"
   Reloads = {"m1", "m2"}
   ToB = {"m1"}
   Bad = {}
